@@ -65,6 +65,16 @@ pub fn run(ctx: &Ctx) {
         let t: String = src.chars().enumerate().map(|(k, c)| if k == pos { d } else { c }).collect();
         check_text(ctx, "one-deviating-character", i, &format!("deviating-{}", if d == 'A' { "uppercase-digit" } else if d.is_ascii() { "ascii-non-hex" } else { "non-ascii" }), &t);
     });
+    // the same deviation measured in BYTES: a character of k bytes put in place of k digits keeps the byte length at 130 (132)
+    // while the number of characters drops - a length test that counts bytes passes, and whatever then cuts the text at a
+    // fixed offset (64, 128, 130) may land inside the character
+    let wide = ["\u{e9}", "\u{20ac}", "\u{1f600}", "\u{e9}\u{e9}", "\u{ff11}"];
+    ctx.sweep("byte-length-preserving-wide-character", "a valid 130-digit text (bare and 0x-prefixed) in which a 2-, 3-, 4-byte character, two 2-byte characters or a full-width digit replace as many digits as they have bytes, at every byte offset: refused, never a panic", (132 * 2 * wide.len()) as u64, |i| {
+        let w = wide[i as usize % wide.len()]; let pos = (i as usize / wide.len()) % 132; let pre = i as usize / wide.len() / 132 == 1;
+        let src = if pre { good.clone() } else { body.to_string() }; if pos + w.len() > src.len() { return; }
+        let t = format!("{}{w}{}", &src[..pos], &src[pos + w.len()..]); debug_assert_eq!(t.len(), src.len());
+        check_text(ctx, "byte-length-preserving-wide-character", i, &format!("wide-{}-bytes{}", w.len(), if [64usize, 128, 130].iter().any(|b| { let b = b + if pre { 2 } else { 0 }; pos < b && b < pos + w.len() }) { ",across-a-field-boundary" } else { "" }), &t);
+    });
     ctx.sweep("v-byte", "every v byte 0..=255 on otherwise valid scalars", 256, |i| {
         let t = format!("0x{}{:02x}", &body[..128], i); check_text(ctx, "v-byte", i, &format!("v={}", if i == 27 || i == 28 { "27-28" } else { "other" }), &t);
     });
